@@ -1892,7 +1892,7 @@ theorem setMediaText_own_toks (m : ML) (raising ft : Bool) (hc : NoComments m.se
   cases qs with
   | nil => rw [hs] at hne; simp at hne
   | cons q r =>
-    have hp := parseL_reparse false ft q r hg
+    have hp := parseL_reparse true ft q r hg
     unfold ML.setMediaText ML.toks
     have hne' : (queries m.seq).isEmpty = false := by rw [hqs]; rfl
     simp only [hne', Bool.false_eq_true, if_false]
